@@ -123,7 +123,9 @@ Record cfg := {
   chunk_pred : nat;              (* chunk_size - 1 *)
   is_head : bool;                (* the request method was HEAD *)
   decompress : bool;             (* decompress_response *)
-  streaming : bool               (* a streaming_callback was given *)
+  streaming : bool;              (* a streaming_callback was given *)
+  expect100 : bool               (* expect_100_continue: the request body is held back until a
+                                    100 (Continue) interim response arrives *)
 }.
 
 Inductive ekind :=
@@ -138,10 +140,11 @@ Inductive outcome :=
 | OResp (code : N) (reason : option bytes) (hs : list (bytes * bytes)) (body : bytes)
 | OErr (k : ekind).
 
-(* what final_callback got, whether EOF had been consumed from the transport by then, and
-   the bytes given to streaming_callback (concatenated) *)
+(* what final_callback got, whether EOF had been consumed from the transport by then, the
+   bytes given to streaming_callback (concatenated), and whether the held-back request body was
+   written in answer to a 100 (Continue) *)
 Inductive result :=
-| Res (o : outcome) (eof : bool) (streamed : bytes)
+| Res (o : outcome) (eof : bool) (streamed : bytes) (sent : bool)
 | OutOfFuel.
 
 Inductive bstat (S : Type) := BDone (s : S) | BEofS | BBadS | BUnsatS | BFuel.
@@ -204,16 +207,20 @@ Section Client.
     d_gzon : bool;                 (* _GzipMessageDelegate._decompressor is not None *)
     d_gz : G;
     d_gzsize : N;                  (* _decompressed_body_size (never reset) *)
-    d_gzrecv : bool                (* _compressed_data_received *)
+    d_gzrecv : bool;               (* _compressed_data_received *)
+    d_sent : bool                  (* _write_body(False) already ran from headers_received *)
   }.
 
   (* _HTTPConnection.data_received *)
   Definition inner_data (d : dstate) (x : bytes) : dstate :=
     if streaming c
-    then DS (d_chunks d) (d_streamed d ++ x) (d_gzon d) (d_gz d) (d_gzsize d) (d_gzrecv d)
-    else DS (d_chunks d ++ x) (d_streamed d) (d_gzon d) (d_gz d) (d_gzsize d) (d_gzrecv d).
+    then DS (d_chunks d) (d_streamed d ++ x) (d_gzon d) (d_gz d) (d_gzsize d) (d_gzrecv d) (d_sent d)
+    else DS (d_chunks d ++ x) (d_streamed d) (d_gzon d) (d_gz d) (d_gzsize d) (d_gzrecv d) (d_sent d).
   Definition with_gz (d : dstate) (g : G) (sz : N) : dstate :=
-    DS (d_chunks d) (d_streamed d) (d_gzon d) g sz (d_gzrecv d).
+    DS (d_chunks d) (d_streamed d) (d_gzon d) g sz (d_gzrecv d) (d_sent d).
+
+  Definition set_sent (d : dstate) : dstate :=
+    DS (d_chunks d) (d_streamed d) (d_gzon d) (d_gz d) (d_gzsize d) (d_gzrecv d) true.
 
   Inductive dres := DOk (d : dstate) | DBad (d : dstate) (* HTTPInputError *) | DFuel.
 
@@ -248,7 +255,7 @@ Section Client.
     if d_gzon d
     then
       let d1 := DS (d_chunks d) (d_streamed d) true (d_gz d) (d_gzsize d)
-                   (d_gzrecv d || match piece with [] => false | _ => true end) in
+                   (d_gzrecv d || match piece with [] => false | _ => true end) (d_sent d) in
       gz_chunk (Datatypes.S (Datatypes.S (N.to_nat (max_body c - d_gzsize d)))) d1 piece
     else DOk (inner_data d piece).
 
@@ -268,7 +275,7 @@ Section Client.
   Definition headers_received (d : dstate) (h0 : headers) : dstate * headers :=
     if decompress c then
       let '(h, on) := gz_headers h0 in
-      (DS (d_chunks d) (d_streamed d) on (if on then gnew (d_gz d) else d_gz d) (d_gzsize d) false, h)
+      (DS (d_chunks d) (d_streamed d) on (if on then gnew (d_gz d) else d_gz d) (d_gzsize d) false (d_sent d), h)
     else (d, h0).
 
   (* delegate.finish(): the gzip wrapper's flush / truncation checks, then _HTTPConnection.finish *)
@@ -283,9 +290,9 @@ Section Client.
          else None)
       else (d, None) in
     match bad with
-    | Some k => Res (OErr k) eof (d_streamed d1)
+    | Some k => Res (OErr k) eof (d_streamed d1) (d_sent d1)
     | None => Res (OResp code reason (get_all h) (if streaming c then [] else d_chunks d1))
-                  eof (d_streamed d1)
+                  eof (d_streamed d1) (d_sent d1)
     end.
 
   (* after the pieces of a body were read: deliver them, then act on how reading ended *)
@@ -293,13 +300,13 @@ Section Client.
              (pieces : list bytes) (b : bstat S) : result :=
     match deliver d pieces with
     | DFuel => OutOfFuel
-    | DBad d' => Res (OErr EConnClosed) false (d_streamed d')
+    | DBad d' => Res (OErr EConnClosed) false (d_streamed d') (d_sent d')
     | DOk d' =>
         match b with
         | BDone _ => do_finish d' code reason h false
-        | BEofS => Res (OErr EConnClosed) true (d_streamed d')
-        | BBadS => Res (OErr EConnClosed) false (d_streamed d')
-        | BUnsatS => Res (OErr EQuiet) false (d_streamed d')   (* on_connection_close re-raises
+        | BEofS => Res (OErr EConnClosed) true (d_streamed d') (d_sent d')
+        | BBadS => Res (OErr EConnClosed) false (d_streamed d') (d_sent d')
+        | BUnsatS => Res (OErr EQuiet) false (d_streamed d') (d_sent d')   (* on_connection_close re-raises
                                                                   stream.error inside the logging context *)
         | BFuel => OutOfFuel
         end
@@ -309,7 +316,7 @@ Section Client.
   Definition read_body (s1 : S) (d : dstate) (code : N) (reason : option bytes) (h : headers)
     : result :=
     match body_plan (max_body c) code h with
-    | None => Res (OErr EConnClosed) false (d_streamed d)
+    | None => Res (OErr EConnClosed) false (d_streamed d) (d_sent d)
     | Some (pl, h') =>
         match pl with
         | PFixed n =>
@@ -321,11 +328,11 @@ Section Client.
         | PClose =>
             (* read_until_close, the size check of /repo commit e310265, one data_received call *)
             let body := rd_all ops s1 in
-            if max_body c <? N.of_nat (length body) then Res (OErr EConnClosed) true (d_streamed d)
+            if max_body c <? N.of_nat (length body) then Res (OErr EConnClosed) true (d_streamed d) (d_sent d)
             else
               match data_received d body with
               | DFuel => OutOfFuel
-              | DBad d' => Res (OErr EConnClosed) true (d_streamed d')
+              | DBad d' => Res (OErr EConnClosed) true (d_streamed d') (d_sent d')
               | DOk d' => do_finish d' code reason h' true
               end
         end
@@ -337,27 +344,39 @@ Section Client.
     | O => OutOfFuel
     | Datatypes.S f =>
         match rd_regex ops (max_header c) s with
-        | RUnsat => Res (OErr EUnsat) false (d_streamed d)
-        | REof => Res (OErr EStreamClosed) true (d_streamed d)
+        | RUnsat => Res (OErr EUnsat) false (d_streamed d) (d_sent d)
+        | REof => Res (OErr EStreamClosed) true (d_streamed d) (d_sent d)
         | RData hd s1 =>
             match parse_resp_head hd with
-            | None => Res (OErr EMalformed) false (d_streamed d)
+            | None => Res (OErr EMalformed) false (d_streamed d) (d_sent d)
             | Some (code, reason, h0) =>
                 let '(d1, h) := headers_received d h0 in
                 if is_1xx code then
-                  if hmem h K_CL || hmem h K_TE then Res (OErr EConnClosed) false (d_streamed d1)
-                  else frame f s1 d1           (* the next message is the response *)
+                  (* _HTTPConnection.headers_received: `if expect_100_continue and code == 100:
+                     await self._write_body(False)`.  A second 100 makes HTTP1Connection.write
+                     exceed Content-Length: the stream is closed, HTTPOutputError is logged,
+                     on_connection_close reports the failure *)
+                  let wr := expect100 c && (code =? 100) in
+                  if wr && d_sent d1 then Res (OErr EConnClosed) false (d_streamed d1) true
+                  else
+                    let d2 := if wr then set_sent d1 else d1 in
+                    if hmem h K_CL || hmem h K_TE
+                    then Res (OErr EConnClosed) false (d_streamed d2) (d_sent d2)
+                    else frame f s1 d2           (* the next message is the response *)
                 else if is_head c || (code =? 304) then do_finish d1 code reason h false
                 else read_body s1 d1 code reason h
             end
         end
     end.
 
-  Definition d0 (g0 : G) : dstate := DS [] [] false g0 0 false.
+  Definition d0 (g0 : G) : dstate := DS [] [] false g0 0 false false.
 
   (* _HTTPConnection.run / _write_body / _read_response *)
   Definition fetch (g0 : G) (s : S) : result :=
     frame (Datatypes.S (remaining ops s)) s (d0 g0).
+  (* the rest of the fetch once the held-back body has been written (after a 100 Continue) *)
+  Definition fetch_sent (g0 : G) (s : S) : result :=
+    frame (Datatypes.S (remaining ops s)) s (set_sent (d0 g0)).
 End Client.
 
 (* ---------- a table-driven decompressor for the correspondence check ---------- *)
